@@ -152,6 +152,15 @@ MUTATIONS += [
     dict(id="C01-ta-tree-add-front", prop="C01", file="crates/core/src/blob/tree.rs", old="        self.nodes.push(node);", new="        self.nodes.insert(0, node);"),
 ]
 
+# ---- C11 is_parent predicate (Verus)
+PA = "crates/core/src/archiver/parent.rs"
+MUTATIONS += [
+    dict(id="C11-pred-mtime-dropped", prop="C11", file=PA, old="                    && p_meta.mtime == meta.mtime\n", new=""),
+    dict(id="C11-pred-ctime-or", prop="C11", file=PA, old="                    && match_ctime\n                    && match_inode", new="                    && (match_ctime || match_inode)"),
+    dict(id="C11-pred-size-le", prop="C11", file=PA, old="                    && p_meta.size == meta.size\n", new="                    && p_meta.size <= meta.size\n"),
+    dict(id="C11-pred-ignore-ctime-inverted", prop="C11", file=PA, old="                    ignore_ctime || p_meta.ctime.zip(meta.ctime).is_none_or(|(x, y)| x == y);", new="                    !ignore_ctime || p_meta.ctime.zip(meta.ctime).is_none_or(|(x, y)| x == y);"),
+]
+
 HARMLESS = [
     dict(id="H-C05-trees-symlink-continue", prop="C05", file=CK, old="        for node in tree.nodes {\n            match node.node_type {", new="        for node in tree.nodes {\n            if node.node_type == NodeType::Symlink {\n                continue;\n            }\n            match node.node_type {"),
 ]
